@@ -211,7 +211,7 @@ template <class T>
 struct SPxLPBase
 {
    int nr, nc; bool scaled;
-   Attr<T> a_lhs, a_rhs, a_low, a_up;
+   Attr<T> a_lhs, a_rhs, a_low, a_up, a_obj;
 
    bool isScaled() const { return scaled; }
    int nRows() const { return nr; }
@@ -220,6 +220,7 @@ struct SPxLPBase
    T rhs(int i) const { __CPROVER_assert(0 <= i && i < nr, "LP row index in bounds"); return a_rhs.get(i); }
    T lower(int i) const { __CPROVER_assert(0 <= i && i < nc, "LP column index in bounds"); return a_low.get(i); }
    T upper(int i) const { __CPROVER_assert(0 <= i && i < nc, "LP column index in bounds"); return a_up.get(i); }
+   T obj(int i) const { __CPROVER_assert(0 <= i && i < nc, "LP column index in bounds"); return a_obj.get(i); }
    /* the model stores user-space (unscaled) values */
    T lhsUnscaled(int i) const { return lhs(i); }
    T rhsUnscaled(int i) const { return rhs(i); }
@@ -286,12 +287,7 @@ struct SPxLPBase
    CHANGE1(changeUpper, M_changeUpper, a_up)
    CHANGE2(changeRange, M_changeRange, a_lhs, a_rhs)
    CHANGE2(changeBounds, M_changeBounds, a_low, a_up)
-   void changeObj(const VectorBase<T>& v, bool scale = false)
-   { rec_call((T*)0, M_changeObj_v); rec_vec1(v); rec_n((T*)0, v.dimen); rec_scale((T*)0, scale); }
-   void changeObj(int i, const T& v, bool scale = false)
-   { rec_call((T*)0, M_changeObj_i); rec_ij((T*)0, i, -1); rec_v1(v); rec_scale((T*)0, scale); }
-   void changeObj(int i, const mpq_t* p)
-   { T v(*p); rec_call((T*)0, M_changeObj_i); rec_ij((T*)0, i, -1); rec_v1(v); rec_scale((T*)0, false); }
+   CHANGE1(changeObj, M_changeObj, a_obj)
    void changeElement(int i, int j, const T& v, bool scale = false)
    { rec_call((T*)0, M_changeElement); rec_ij((T*)0, i, j); rec_v1(v); rec_scale((T*)0, scale); }
    void changeElement(int i, int j, const mpq_t* p)
@@ -422,6 +418,27 @@ struct Host : SoPlexBase<R>
    {
 #include "upperReal.inc"
    }
+   /* (the real getters return const Rational&; the model hands out values) */
+   Rational lhsRational(int i) const
+   {
+#include "lhsRational.inc"
+   }
+   Rational rhsRational(int i) const
+   {
+#include "rhsRational.inc"
+   }
+   Rational lowerRational(int i) const
+   {
+#include "lowerRational.inc"
+   }
+   Rational upperRational(int i) const
+   {
+#include "upperRational.inc"
+   }
+   Rational objRational(int i) const
+   {
+#include "objRational.inc"
+   }
 #ifndef NO_HELPER_RANGETYPE
    RangeType _rangeTypeReal(const R& lower, const R& upper) const
    {
@@ -513,9 +530,9 @@ extern "C" void w_lpmod(int syncmode, int objsense, int loaded, int hasBasis, in
 {
    /* the packed buffers (see contract.c) */
    double* r_lhs = dbuf; double* r_rhs = dbuf + ACAP; double* r_low = dbuf + 2 * ACAP; double* r_up = dbuf + 3 * ACAP;
-   double* vec1 = dbuf + 4 * ACAP; double* vec2 = dbuf + 5 * ACAP;
+   double* vec1 = dbuf + 4 * ACAP; double* vec2 = dbuf + 5 * ACAP; double* r_obj = dbuf + 6 * ACAP;
    long long* q_lhs = qbuf; long long* q_rhs = qbuf + ACAP; long long* q_low = qbuf + 2 * ACAP; long long* q_up = qbuf + 3 * ACAP;
-   long long* qvec1 = qbuf + 4 * ACAP; long long* qvec2 = qbuf + 5 * ACAP;
+   long long* qvec1 = qbuf + 4 * ACAP; long long* qvec2 = qbuf + 5 * ACAP; long long* q_obj = qbuf + 6 * ACAP;
    int* rowTypes = ibuf; int* colTypes = ibuf + ACAP; int* bsRows = ibuf + 2 * ACAP; int* bsCols = ibuf + 3 * ACAP; int* out = ibuf + 4 * ACAP;
 
    VIN("syncmode", syncmode); VIN("loaded", loaded); VIN("hasBasis", hasBasis); VIN("sbstat", sbstat); VIN("scaled", scaled);
@@ -528,10 +545,10 @@ extern "C" void w_lpmod(int syncmode, int objsense, int loaded, int hasBasis, in
    /* the two LP models */
    SPxLPBase<R> realLP; realLP.nr = nr; realLP.nc = nc; realLP.scaled = (scaled != 0);
    realLP.a_lhs.base.d = r_lhs; realLP.a_lhs.base.dimen = nr; realLP.a_rhs.base.d = r_rhs; realLP.a_rhs.base.dimen = nr;
-   realLP.a_low.base.d = r_low; realLP.a_low.base.dimen = nc; realLP.a_up.base.d = r_up; realLP.a_up.base.dimen = nc;
+   realLP.a_low.base.d = r_low; realLP.a_low.base.dimen = nc; realLP.a_up.base.d = r_up; realLP.a_up.base.dimen = nc; realLP.a_obj.base.d = r_obj; realLP.a_obj.base.dimen = nc;
    SPxLPRational ratLP; ratLP.nr = qnr; ratLP.nc = qnc; ratLP.scaled = false;
    ratLP.a_lhs.base.q = q_lhs; ratLP.a_lhs.base.dimen = qnr; ratLP.a_rhs.base.q = q_rhs; ratLP.a_rhs.base.dimen = qnr;
-   ratLP.a_low.base.q = q_low; ratLP.a_low.base.dimen = qnc; ratLP.a_up.base.q = q_up; ratLP.a_up.base.dimen = qnc;
+   ratLP.a_low.base.q = q_low; ratLP.a_low.base.dimen = qnc; ratLP.a_up.base.q = q_up; ratLP.a_up.base.dimen = qnc; ratLP.a_obj.base.q = q_obj; ratLP.a_obj.base.dimen = qnc;
 
    Settings st;
    st._intParamValues[SoPlexBase<R>::SYNCMODE] = syncmode;
@@ -539,7 +556,9 @@ extern "C" void w_lpmod(int syncmode, int objsense, int loaded, int hasBasis, in
    st._realParamValues[SoPlexBase<R>::INFTY] = infty;
 
    H h;
-   h._currentSettings = &st; h._realLP = &realLP; h._rationalLP = &ratLP;
+   h._currentSettings = &st; h._realLP = &realLP;
+   /* setIntParam(SYNCMODE, SYNCMODE_ONLYREAL) frees the rational LP: in real-only mode there is none */
+   h._rationalLP = (syncmode == SoPlexBase<R>::SYNCMODE_ONLYREAL) ? 0 : &ratLP;
    h._solver.thebasis.thestatus = (SPxBasisBase<R>::SPxStatus)sbstat; h._solver.m_status = (SPxSolverBase<R>::Status)sbstat; h._solver.nr = nr; h._solver.nc = nc;
    h._isRealLPLoaded = (loaded != 0); h._hasBasis = (hasBasis != 0);
    h._rationalPosInfty.v = posInf; h._rationalNegInfty.v = -posInf;
